@@ -71,6 +71,11 @@ class Ctx:
         for s in samples:
             if len(r['samples']) < 6:
                 r['samples'].append(s)
+        if instances < floor and any(rp.rule == rule for rp in self.reports):
+            # the rule has already named the construct that went missing or wrong: the shortfall is explained by its own
+            # report, which must not be hidden behind an analysis error
+            self.note('%s: %d instance(s), below the floor of %d - explained by the report(s) of this rule' % (rule, instances, floor))
+            return
         if instances < floor:
             raise AnalysisError('%s: only %d instance(s) of "%s" found, floor is %d - '
                                 'the rule no longer sees the code it was written for' % (rule, instances, what, floor))
